@@ -121,8 +121,12 @@ def fieldTable (d : Nat) (bs : Bytes) : Except Err Table :=
   else
     let ds := delimsFrom (isDelim d) 0 data
     let n := (data.takeWhile (fun b => b != 10)).count d + 1      -- entry_ends[0] + 1
-    if ds.length % n != 0 then .error .shape
-    else .ok ⟨n, 0 :: ds.dropLast.map (· + 1), ds⟩
+    -- every line must have as many columns as the first one (FormatException with the line number)
+    match ((linesOf data).map (fun l => l.count d + 1)).findIdx? (fun c => c != n) with
+    | some i => .error (.format i)
+    | none =>
+      if ds.length % n != 0 then .error .shape
+      else .ok ⟨n, 0 :: ds.dropLast.map (· + 1), ds⟩
 
 def Table.pairs (t : Table) : List (Nat × Nat) := List.zip t.starts t.ends
 
@@ -179,7 +183,8 @@ def signedRow (t : Bytes) : Option Int :=
   let neg := t.head? = some 45
   let pos := t.head? = some 43
   let body := if neg || pos then 48 :: t.tail else t
-  if body.all isDigit then
+  if (neg || pos) && t.length == 1 then none       -- a sign without digits is not a number
+  else if body.all isDigit then
     let v : Int := (dot (body.map (· - 48)) (powersDesc body.length) : Nat)
     some (if neg then -v else v)
   else none
@@ -270,8 +275,30 @@ def typedColumn (kind : String) (data : Bytes) (fs : List (Nat × Nat)) : Except
 
 def columnOf {α} (rows : List (List α)) (j : Nat) : List α := rows.filterMap (·[j]?)
 
+/-- apply `f` to every element, first error wins (induction-friendly `mapM`) -/
+def emap {α β ε} (f : α → Except ε β) : List α → Except ε (List β)
+  | [] => .ok []
+  | a :: as =>
+    match f a with
+    | .error e => .error e
+    | .ok b =>
+      match emap f as with
+      | .error e => .error e
+      | .ok bs => .ok (b :: bs)
+
+/-- columns `j, j+1, …` of the table, typed by `kinds` -/
+def typedColumnsFrom (data : Bytes) (rows : List (List (Nat × Nat))) : Nat → List String → Except Err (List Col)
+  | _, [] => .ok []
+  | j, k :: ks =>
+    match typedColumn k data (columnOf rows j) with
+    | .error e => .error e
+    | .ok c =>
+      match typedColumnsFrom data rows (j + 1) ks with
+      | .error e => .error e
+      | .ok cs => .ok (c :: cs)
+
 def typedColumns (kinds : List String) (data : Bytes) (rows : List (List (Nat × Nat))) : Except Err (List Col) :=
-  (List.zip (List.range kinds.length) kinds).mapM (fun jk => typedColumn jk.2 data (columnOf rows jk.1))
+  typedColumnsFrom data rows 0 kinds
 
 /-- `FileBuffer.read_header`: leading lines starting with the comment character are not data -/
 def dropHeaderLines (c : Nat) : List Bytes → List Bytes
@@ -283,11 +310,15 @@ def unlines (ls : List Bytes) : Bytes := (ls.map (· ++ [10])).flatten
 def dropHeader (c : Nat) (bs : Bytes) : Bytes := unlines (dropHeaderLines c (linesOf bs)) ++ tailOf bs
 
 /-- plain delimited formats -/
-def parseDelimited (S : Schema) (bs : Bytes) : Except Err (Nat × List Col) := do
-  let t ← fieldTable S.delim bs
-  let rows := crAdjustRows bs t.rows
-  let cols ← typedColumns (S.cols.map (·.2)) bs rows
-  pure (rows.length, cols)
+def parseDelimited (S : Schema) (bs : Bytes) : Except Err (Nat × List Col) :=
+  let data := complete bs                       -- the extractor holds `chunk[:size]`
+  match fieldTable S.delim bs with
+  | .error e => .error e
+  | .ok t =>
+    let rows := crAdjustRows data t.rows
+    match typedColumns (S.cols.map (·.2)) data rows with
+    | .error e => .error e
+    | .ok cols => .ok (rows.length, cols)
 
 /-! ## interior comments (`DelimitedBufferWithInernalComments`) -/
 
@@ -551,36 +582,34 @@ def docFormats : List (String × DocFmt) := [
   ("vcf", { cols := [("chromosome", "id"), ("position", "int"), ("id", "str"), ("ref_seq", "str"), ("alt_seq", "str"),
       ("quality", "str"), ("filter", "str"), ("info", "str")], comment := 35 })]
 
-def specCell (kind : String) (t : Bytes) : Option Col :=
-  match kind with
-  | "int" => (specNat t).map (fun n => Col.ints [n])
-  | "sint" => (specInt t).map (fun n => Col.ints [n])
-  | "oint" => if t = [] ∨ t = [46] then some (Col.ints [0]) else (specInt t).map (fun n => Col.ints [n])
-  | "id" => some (Col.strs [t])
-  | "str" => some (Col.strs [t])
-  | "float" => some (Col.floats [t])
-  | "ilist" => (specIntList t).map (fun l => Col.intLists [l])
-  | "strand" => if t.length = 1 ∧ t.all strandOK then some (Col.strs [t]) else none
-  | _ => none
+/-- unsigned decimal, as an `Int` -/
+def specNatI (t : Bytes) : Option Int :=
+  match specNat t with
+  | some n => some (Int.ofNat n)
+  | none => none
 
-def Col.append : Col → Col → Option Col
-  | .ints a, .ints b => some (.ints (a ++ b))
-  | .strs a, .strs b => some (.strs (a ++ b))
-  | .floats a, .floats b => some (.floats (a ++ b))
-  | .intLists a, .intLists b => some (.intLists (a ++ b))
-  | _, _ => none
+/-- optional integer: empty and "." are missing (0) -/
+def specOInt (t : Bytes) : Option Int := if t = [] ∨ t = [46] then some 0 else specInt t
 
-def Col.emptyOf (kind : String) : Col :=
-  match kind with
-  | "int" | "oint" | "sint" => .ints []
-  | "float" => .floats []
-  | "ilist" => .intLists []
-  | _ => .strs []
-
+/-- a whole column read by its documented kind -/
 def specColumn (kind : String) (texts : List Bytes) : Option Col :=
-  texts.foldl (fun acc t => match acc, specCell kind t with
-    | some a, some c => a.append c
-    | _, _ => none) (some (Col.emptyOf kind))
+  if kind = "int" then (omap specNatI texts).map Col.ints
+  else if kind = "sint" then (omap specInt texts).map Col.ints
+  else if kind = "oint" then (omap specOInt texts).map Col.ints
+  else if kind = "id" then (if texts.all (fun t => t.getLast? != some 0) then some (Col.strs texts) else none)
+  else if kind = "str" then some (Col.strs texts)
+  else if kind = "float" then some (Col.floats texts)
+  else if kind = "ilist" then (omap specIntList texts).map Col.intLists
+  else if kind = "strand" then (if texts.all (fun t => t.length == 1 && t.all strandOK) then some (Col.strs texts) else none)
+  else none
+
+/-- columns `j, j+1, …` of the records, read by `kinds` -/
+def specColumnsFrom (recs : List (List Bytes)) : Nat → List String → Option (List Col)
+  | _, [] => some []
+  | j, k :: ks =>
+    match specColumn k (columnOf recs j), specColumnsFrom recs (j + 1) ks with
+    | some c, some cs => some (c :: cs)
+    | _, _ => none
 
 /-- records of a delimited text: complete lines (CR stripped when every line has it), header/comment lines
 removed, split on TAB -/
@@ -607,7 +636,7 @@ def specParse (fmt : String) (viaOpen : Bool) (bs : Bytes) : Option (Nat × List
   | some recs =>
     if recs = [] then none else
     let kinds := D.cols.map (·.2)
-    match omap (fun jk : Nat × String => specColumn jk.2 (columnOf recs jk.1)) (List.zip (List.range kinds.length) kinds) with
+    match specColumnsFrom recs 0 kinds with
     | some cols => some (recs.length, if fmt = "vcf" then shiftCol 1 (-1) cols else cols)
     | none => none
 
